@@ -104,6 +104,16 @@ def canonical(graph, root):
     return g, 1
 
 
+def merge_singletons(graph):
+    """CPython has ONE empty tuple: two empty-tuple nodes are the same object, so they are one node of the object
+    graph (otherwise the observer's id -> node map is ambiguous and the visit log drifts from the model)."""
+    empties = [i + 1 for i, nd in enumerate(graph) if nd['k'] == 'tuple' and not nd['c']]
+    if len(empties) < 2:
+        return graph
+    first = empties[0]
+    return [dict(nd, c=[first if r in empties else r for r in nd['c']]) for nd in graph]
+
+
 def valid(graph):
     for nd in graph:
         if nd['k'] == 'tuple':
@@ -285,6 +295,9 @@ def graph_universe(chk):
     def add(g, root=1):
         if not valid(g):
             return
+        g = merge_singletons(g)
+        if g[root - 1]['k'] == 'tuple' and not g[root - 1]['c']:
+            root = min(i + 1 for i, nd in enumerate(g) if nd['k'] == 'tuple' and not nd['c'])
         cg, r = canonical(g, root)
         if not valid(cg):
             return
